@@ -276,14 +276,16 @@ def run(ctx):
         tl, th = sorted(np.exp(rng.uniform(-3, 3, 2)))
         ev += 1
         for Mb, tb, ok in (((lo, hi), (tl, th), lo < hi and tl < th), ((hi, lo), (tl, th), False), ((lo, lo), (tl, th), False), ((lo, hi), (th, tl), False),
-                           ((lo, hi), (tl, tl), False), ((lo,), (tl, th), False), ((lo, hi, hi + 1), (tl, th), False), ((lo, hi), (tl,), False), ((lo, hi), (tl, th, th + 1), False)):
+                           ((lo, hi), (tl, tl), False), ((lo,), (tl, th), False), ((lo, hi, hi + 1), (tl, th), False), ((lo, hi), (tl,), False), ((lo, hi), (tl, th, th + 1), False),
+                           # limits that are not numbers are malformed too
+                           ((math.nan, hi), (tl, th), False), ((lo, math.nan), (tl, th), False), ((lo, hi), (math.nan, th), False), ((lo, hi), (tl, math.nan), False)):
             try:
                 Bounds(M=Mb, tau=tb)
                 acc = True
             except ValueError:
                 acc = False
             if acc != ok:
-                bad("Bounds validation is wrong (malformed bounds accepted or well-formed ones rejected)", dict(M=list(Mb), tau=list(tb)), dict(accepted=acc))
+                bad("Bounds validation is wrong (malformed bounds accepted or well-formed ones rejected)", dict(M=[None if x != x else x for x in Mb], tau=[None if x != x else x for x in tb], NaN_shown_as_null=True), dict(accepted=acc))
         if lo < hi and tl < th:
             b = Bounds(M=(lo, hi), tau=(tl, th))
             if b.fit_bounds() != ((lo, tl), (hi, th)):
